@@ -14,7 +14,8 @@
      * Notifier (subscription.go): buffer / activated, Notify, activate.
    Concurrency is modelled as interleavings of atomic steps of the threads
      TP (the callProc goroutine), TT (the time.AfterFunc goroutine),
-     TE i (a service goroutine calling Notify on notifier i).
+     TE i (a service goroutine calling Notify on notifier i),
+     TX (anything outside the handler that cancels the request context).
    What executing a method does is environment: each message carries the class of
    the answer handleCall produces for it (m_out), that answer's size (m_size) and
    whether handleSubscribe installs a notifier (m_sub). *)
@@ -87,9 +88,18 @@ Record cfg := mkCfg {
   c_resp_limit : N;      (* h.batchResponseMaxSize, 0 = unlimited *)
   c_inv_size : N;        (* len of the "invalid request" error JSON *)
   c_timeout : bool;      (* ContextRequestTimeout(ctx) returned ok *)
-  c_cancel_first : bool  (* order inside the batch timer callback.  false = the code as it
+  c_cancel_first : bool; (* order inside the batch timer callback.  false = the code as it
                             is now (respondWithError, then cancel); true = the order before
                             commit 09729572d9 (cancel, then respondWithError) *)
+  c_write_on_cancel : bool;
+                         (* end of handleBatch's goroutine.  false = the code as it is now (if
+                            batchCtx.Err() != nil then respondWithError(timeout) else write);
+                            true = the code before commit 01fbbf3d61 (always write) *)
+  c_notif_timeout_reply : bool
+                         (* handleNonBatchCall's timer callback.  false = the code as it is now
+                            ("if msg.isNotification() { return }" inside the Once before the
+                            timeout error is written); true = the code before commit
+                            947a0e3339 (no such test) *)
 }.
 
 (* handler.handleCall: every path answers with msg.ID (msg.errorResponse / msg.response) *)
@@ -158,7 +168,9 @@ Definition activate_upd (n : notifier) : notifier :=
   mkNotifier (n_msg n) (n_buffer n) (n_count n) true.
 
 (* thread identifiers and timer program counter, shared by both systems *)
-Inductive tid := TP | TT | TE (i : nat).
+Inductive tid := TP | TT | TE (i : nat) | TX.
+(* TX: something outside the handler cancels the request context (a deadline of the
+   caller's own context, a cancelled parent): batchCtx.Err() becomes non-nil *)
 Inductive tpc := TNone | TIdle | TMid | TDone | TStopped.
 (* TNone: no timeout configured; TIdle: armed; TMid: callback between its two
    actions; TDone: callback finished; TStopped: timer.Stop() before it fired *)
@@ -176,7 +188,9 @@ Inductive ppc :=
 | PPush (m : msg) (r : resp)   (* callBuffer.pushResponse(resp) + size accounting *)
 | PTooLarge                    (* callBuffer.respondWithError(response too large); break *)
 | PStop                        (* timer.Stop(); h.addSubscriptions *)
-| PWrite                       (* callBuffer.write *)
+| PWrite                       (* the test "if batchCtx.Err() != nil" after the loop *)
+| PRespondC                    (* callBuffer.respondWithError(timeout) — context was cancelled *)
+| PWriteOk                     (* callBuffer.write *)
 | PActivate (j : nat)          (* for _, n := range cp.notifiers { n.activate() }, at index j *)
 | PDone.
 
@@ -250,7 +264,10 @@ Definition pstep (c : cfg) (s : bstate) : option bstate :=
       end
   | PTooLarge => Some (set_ppc PStop (respond_with_error E_TOO_LARGE s))
   | PStop => Some (set_ppc PWrite (set_tpc (stop_timer (b_tpc s)) s))
-  | PWrite => Some (set_ppc (PActivate 0) (do_write s))
+  | PWrite =>
+      Some (set_ppc (if c_write_on_cancel c || negb (b_cancelled s) then PWriteOk else PRespondC) s)
+  | PRespondC => Some (set_ppc (PActivate 0) (respond_with_error E_TIMEOUT s))
+  | PWriteOk => Some (set_ppc (PActivate 0) (do_write s))
   | PActivate j =>
       match nth_error (b_notifiers s) j with
       | None => Some (set_ppc PDone s)
@@ -287,7 +304,10 @@ Definition estep (i : nat) (s : bstate) : option bstate :=
   end.
 
 Definition bstep (c : cfg) (t : tid) (s : bstate) : option bstate :=
-  match t with TP => pstep c s | TT => tstep c s | TE i => estep i s end.
+  match t with
+  | TP => pstep c s | TT => tstep c s | TE i => estep i s
+  | TX => Some (set_cancelled s)
+  end.
 
 Definition binit (c : cfg) (calls : list msg) : bstate :=
   mkB calls [] false false 0 PCheck (if c_timeout c then TIdle else TNone) [] [] [].
@@ -388,12 +408,15 @@ Definition spstep (m : msg) (s : sstate) : option sstate :=
   | SDone => None
   end.
 
-(* the time.AfterFunc callback of handleNonBatchCall: cancel(); responded.Do(write
-   msg.errorResponse(timeout)) — no isNotification test here *)
-Definition ststep (m : msg) (s : sstate) : option sstate :=
+(* the time.AfterFunc callback of handleNonBatchCall: cancel(); responded.Do(func() {
+   if msg.isNotification() { return }; write msg.errorResponse(timeout) }) *)
+Definition ststep (c : cfg) (m : msg) (s : sstate) : option sstate :=
   match s_tpc s with
   | TIdle => Some (mkS (s_responded s) true (s_spc s) TMid (s_notifiers s) (s_out s))
-  | TMid => Some (sset_tpc TDone (once_write [WSingle (error_response m E_TIMEOUT)] s))
+  | TMid =>
+      let silent := is_notification m && negb (c_notif_timeout_reply c) in
+      Some (sset_tpc TDone
+              (once_write (if silent then [] else [WSingle (error_response m E_TIMEOUT)]) s))
   | _ => None
   end.
 
@@ -405,20 +428,23 @@ Definition sestep (i : nat) (s : sstate) : option sstate :=
                 (upd_nth i notify_upd (s_notifiers s)) (s_out s ++ notify_out n))
   end.
 
-Definition sstep (m : msg) (t : tid) (s : sstate) : option sstate :=
-  match t with TP => spstep m s | TT => ststep m s | TE i => sestep i s end.
+Definition sstep (c : cfg) (m : msg) (t : tid) (s : sstate) : option sstate :=
+  match t with
+  | TP => spstep m s | TT => ststep c m s | TE i => sestep i s
+  | TX => Some (mkS (s_responded s) true (s_spc s) (s_tpc s) (s_notifiers s) (s_out s))
+  end.
 
 Definition sinit (c : cfg) : sstate :=
   mkS false false SExec (if c_timeout c then TIdle else TNone) [] [].
 
-Inductive sreach (m : msg) : sstate -> sstate -> Prop :=
-| sreach_refl s : sreach m s s
-| sreach_step s s1 s2 t : sreach m s s1 -> sstep m t s1 = Some s2 -> sreach m s s2.
+Inductive sreach (c : cfg) (m : msg) : sstate -> sstate -> Prop :=
+| sreach_refl s : sreach c m s s
+| sreach_step s s1 s2 t : sreach c m s s1 -> sstep c m t s1 = Some s2 -> sreach c m s s2.
 
-Fixpoint srun (m : msg) (sch : list tid) (s : sstate) : sstate :=
+Fixpoint srun (c : cfg) (m : msg) (sch : list tid) (s : sstate) : sstate :=
   match sch with
   | [] => s
-  | t :: r => match sstep m t s with Some s' => srun m r s' | None => srun m r s end
+  | t :: r => match sstep c m t s with Some s' => srun c m r s' | None => srun c m r s end
   end.
 
 Definition sfinal (s : sstate) : bool :=
